@@ -171,6 +171,22 @@ def build(spec, overrides=None):
             else:
                 d = dests[i]
                 net.add_destination(make_dest(dict(d, name=d["name"] + "~")), nodes[d["node"]])
+        elif kind == "elsewhere":
+            # the element object is first used (and stepped) in another, throwaway network
+            i = op[1]
+            other = Network("other")
+            a, b = Node(name="a~"), Node(name="b~")
+            lk = make_link(dict(spec["links"][0], name="tmp~", vsl=None, alpha=None, N=2))
+            if i in origins:
+                other.add_path((a, lk, b), origin=els[i], destination=Destination(name="d~"))
+            else:
+                other.add_path((a, lk, b), origin=Origin(name="o~"), destination=els[i])
+            try:
+                from lib.sut import NumpyEngine
+
+                other.step(engine=NumpyEngine(1.0), **pars_kwargs(spec))
+            except Exception:
+                pass
         elif kind == "read":
             read_lookups(net)
         elif kind == "trystep":
